@@ -191,6 +191,9 @@ func runCase(c Case) (msg string, p prediction) {
 	start := time.Now()
 	r := resprot.SendRequest(sc, "call.svc.model.method", req, time.Duration(c.TimeoutMs)*time.Millisecond, cbs...)
 	elapsed := time.Since(start)
+	// what the callbacks have seen by the time SendRequest returns: a caller forwards the
+	// extensions to its own requester before it forwards the response
+	extsAtReturn := append([]time.Duration(nil), exts...)
 	synctest.Wait()
 	code := ""
 	if r.Error != nil {
@@ -239,6 +242,9 @@ func runCase(c Case) (msg string, p prediction) {
 	}
 	if c.Callbacks > 0 && fmt.Sprint(exts) != fmt.Sprint(p.extensions) {
 		return fmt.Sprintf("extension callbacks saw %v, expected %v", exts, p.extensions), p
+	}
+	if c.Callbacks > 0 && fmt.Sprint(extsAtReturn) != fmt.Sprint(p.extensions) {
+		return fmt.Sprintf("when SendRequest returned the extension callbacks had seen %v, the pre-responses received before the response announce %v", extsAtReturn, p.extensions), p
 	}
 	switch p.kind {
 	case "timeout":
